@@ -129,7 +129,10 @@ impl Property for P {
             Tier::Thorough => 40,
         };
         (
-            prop::collection::vec(frag_any(), 0..=n),
+            prop_oneof![
+                60 => prop::collection::vec(frag_any(), 0..=n),
+                1 => gen::log_count(2000).prop_flat_map(|k| prop::collection::vec(frag_any(), k..=k)),
+            ],
             prop::collection::vec(finite_f64(), 0..=4),
             prop_oneof![
                 3 => Just(PenSpec::DEFAULT),
